@@ -393,6 +393,10 @@ def validForm (r : RefCtx) : AddrForm → Bool
   -- local exec: the offset from the thread pointer is a link-time constant only for TLS blocks of the
   -- executable itself, so the definition must end up in the executable: certain only if this unit defines it
   | .tlsLE => r.entity == .tlsObject && !r.pic && r.definedHere
+  -- initial exec: the offset is loaded from the GOT, filled in by the dynamic linker for TLS blocks of the executable
+  -- and of every shared library present at start-up (the linker relaxes it to local exec where it can); not for
+  -- position-independent code, which may end up in a library loaded by dlopen
+  | .tlsIE => r.entity == .tlsObject && !r.pic
 
 open ChibiVerif.Gen.AddrForms in
 /-- the contexts gen_addr can be called with -/
@@ -408,7 +412,10 @@ def refCtxOf (c : VarCtx) : RefCtx :=
     definedHere := c.isDefinition, pic := c.fpic }
 
 open ChibiVerif.Gen.AddrForms in
-/-- C15-extern-tls-local-exec: non-PIC reference to a thread-local object the unit does not define -/
-def externTlsRegion (c : VarCtx) : Bool := !c.isLocal && c.isTls && !c.fpic && !c.isDefinition
+/-- C15-extern-tls-local-exec: non-PIC reference to a thread-local object the unit does not define, for which the
+    ladder (regenerated from codegen.c) chooses local exec.  Empty once gen_addr is repaired (the ladder then chooses
+    initial exec there): the region is read off the code, not assumed. -/
+def externTlsRegion (c : VarCtx) : Bool :=
+  !c.isLocal && c.isTls && !c.fpic && !c.isDefinition && addrForm c == some .tlsLE
 
 end ChibiVerif.Spec.Linkage
